@@ -374,7 +374,15 @@ def _emit(run, rule, f, db, probs, okmsg, site):
         run.ok(rule, inst, f.loc, okmsg)
 
 
+def check_release_bytes(run, db):
+    """the freed pattern is written over exactly the bytes that were handed out: the array release functions of the pools (and of
+    their traits) pass the free list the same byte count as their acquire siblings (shared rule R-UNLINK.bytes of C04)"""
+    from rules import c04, c05
+    return c04.check_array_bytes(c05._Renamed(run, 'R-FILL.bytes'), db)
+
+
 def run(run):
+    run.rule('R-FILL.bytes', 'array releases of the pools fill exactly the bytes that were acquired', floor=10)
     run.rule('R-FILL.free', 'debug_fill_free structure', floor=1)
     run.rule('R-FILL.new', 'debug_fill_new structure', floor=1)
     run.rule('R-FILL.scan', 'debug_fill writes and debug_is_filled examines exactly [memory, memory + size)', floor=2)
@@ -396,6 +404,8 @@ def run(run):
             run.broke('debug_fill / debug_is_filled not found [%s]' % cfg)
         if check_lowlevel(run, db) < 3:
             run.broke('low-level allocators not found [%s]' % cfg)
+        if check_release_bytes(run, db) < 6:
+            run.broke('array siblings of the pools not found [%s]' % cfg)
         if check_lists(run, db) < 8:
             run.broke('free list functions not found [%s]' % cfg)
         if check_stack_and_arena(run, db) < 3:
